@@ -67,9 +67,10 @@ namespace RecInt
 {
     // a = b^c mod n
     template <size_t K>
-    inline void exp_mod(ruint<K>& a, const ruint<K>& b, const ruint<K>& c, const ruint<K>& n) {
+    inline void exp_mod(ruint<K>& a, const ruint<K>& b, const ruint<K>& c0, const ruint<K>& n0) {
         ruint<K+1> resmul;
         ruint<K> x(b);
+        const ruint<K> c(c0), n(n0); // a may be the same object as c0 or n0
         limb i, j;
 
         limb *tab[NBLIMB<K>::value];
